@@ -4,12 +4,18 @@ Model: spec/Assign.tla (ImplCA = transcription of value.py / type_object.py can_
 universe of spec/Values.tla, judged against Member.  TLC proves the laws on every pair of the bounded
 term space; every TLC-generated pair is replayed through the real Value.can_assign (plain and under
 set_exclude_any) and adjudicated by TLC (AssignTrace.tla).
+
+Protocol slice (harness/c04_protocols.py): spec/Protocols.tla models the structural protocol check of
+type_object.py:141-203 + checker.py:142-182/445-456 (member collection over the MRO, per-member lookup and
+comparison, recursion guard, positive cache as state) on a sub-universe of real run-time Protocol classes
+(harness/proto_universe.py), judged by ProtocolsTrace.tla.
 """
 from __future__ import annotations
 
 import random
 
 from .. import assign_common as ac
+from .. import c04_protocols
 from .. import core
 
 LEVEL = "model_checking"
@@ -61,9 +67,15 @@ def run(check: core.Check) -> None:
                                seed=check.seed + 3, check=check)
     obs = core.pmap(ac.observe_pair, list(enumerate(uniq)), chunk=2000)
     ac.judge(check, obs, "tlc-simulate-depth2", CLAUSES)
+    # run-time protocols: structural check, recursion guard, positive cache (spec/Protocols.tla)
+    c04_protocols.run_slice(check, rnd)
+    check.cov["rule"] += ("; protocol slice: (A, B) with A a run-time protocol type (or a union / object / nominal class) and B a "
+                          "candidate class, its instance as a literal, a protocol type or a union, each replayed in two histories")
 
 
 def replay(check: core.Check, witness: dict) -> None:
     c = witness["case"]
+    if witness.get("slice") == "protocols":
+        return c04_protocols.replay(check, witness)
     obs = [ac.observe_pair((0, {"a": c["a"], "b": c["b"]}))]
     ac.judge(check, obs, "replay", CLAUSES)
